@@ -65,6 +65,14 @@ Check(e) ==
     [] e.a = "enorm" ->
          /\ NormaliseOK(e.high, e.sRel, e.vRel, e.lowAfter, e.hasV)
          /\ e.accDefault /\ e.accStrict /\ e.orc
+    [] e.a = "ebound" ->                                   \* device W: s = Half_n + off on the production curve (BoundaryWindow)
+         /\ e.off \in -8..8
+         /\ e.orc /\ e.accDefault /\ e.recOK              \* the constructed signature is a genuine one
+         /\ e.isNorm <=> LowAt(e.off)
+         /\ e.accStrict <=> LowAt(e.off)
+         /\ e.nOff = NegAt(e.off, LowAt(e.off))            \* Normalise keeps a low s and negates a high one
+         /\ e.nSameR /\ (IF LowAt(e.off) THEN e.nVsame ELSE e.nVflip)
+         /\ e.nIsNorm /\ e.nAccDefault /\ e.nAccStrict /\ e.nOrc
     (* ------------------------------ Schnorr family ------------------------------ *)
     [] e.a = "ssign" -> e.ok /\ e.selfv /\ (Has(e, "orc") => e.orc) /\ (e.det => e.same2) /\ e.eqOK
     [] e.a = "sverify" ->
